@@ -14,7 +14,10 @@ pub struct TW {
 
 impl Drop for TW {
     fn drop(&mut self) {
-        if self.dead && !self.closed {
+        // a writer the driver did not close explicitly is abandoned without running the library's
+        // destructor: it flushes and unwraps, which panics when the backend has failed or is full
+        // (closing is an observed operation of its own: TW::close)
+        if !self.closed {
             self.w.forget();
         }
     }
